@@ -19,6 +19,22 @@ import time
 import vlib
 
 BIN = "sniff"
+
+
+def run_bin(args, stdin, timeout):
+    """Runs the harness binary built from /repo's working tree. Development only: VERIF_SNIFF_BIN points at a
+    binary prebuilt against a scratch worktree (validation of candidate patches / mutants, see notes/sniff.md)."""
+    alt = os.environ.get("VERIF_SNIFF_BIN")
+    if not alt:
+        return vlib.run_harness(BIN, args, stdin=stdin, timeout=timeout)
+    import subprocess
+    vlib.log(f"[dev] using prebuilt harness {alt} (NOT /repo's working tree)")
+    p = subprocess.run([alt] + [str(a) for a in args], input=stdin, text=True, stdout=subprocess.PIPE,
+                       stderr=subprocess.PIPE, timeout=timeout)
+    if p.returncode != 0:
+        vlib.log(p.stderr[-3000:])
+        raise vlib.ToolError(f"harness {alt} exited {p.returncode}")
+    return p.stdout
 PREFACE = b"PRI * HTTP/2.0\r\n\r\nSM\r\n\r\n"
 TLC_FIELDS_CONN = ("k", "head", "len", "eof", "proto", "saw", "sent", "ans", "ref", "io", "caps")
 TLC_FIELDS_REWIND = ("k", "len", "saw", "sent")
@@ -152,6 +168,34 @@ def monitor(pid, recs, cfg="SniffObs.cfg", tag="obs"):
     return res, fails, drift, time.time() - t
 
 
+def monitor_selftest(pid):
+    """The monitor must report exactly the known-false formulas on a fixed set of synthetic records
+    (guards against a vacuous or broken monitor; a mismatch is a tool error, never a verdict)."""
+    pre = list(PREFACE)
+    get = list(b"GET / HTTP/1.1\r\nhost: a\r\n\r\n")[:24]
+    c = lambda head, proto, saw="q", sent="q", ans="a", ref=("a", "b"): {
+        "k": "conn", "head": head, "len": 32, "eof": False, "proto": proto, "saw": saw, "sent": sent, "ans": ans, "ref": list(ref)}
+    canaries = [
+        (c(pre, "h2"), set()),
+        (c(pre, "h1"), {"decision"}),
+        (c(pre, "none"), {"decision"}),
+        (c(get, "h2"), {"decision"}),
+        (c(get, "h1"), set()),
+        (c(pre[:23] + [88], "h1", saw="x"), {"bytes"}),
+        (c(pre[:23] + [88], "h2"), {"decision"}),
+        (c(get, "h1", ans="c"), {"answer"}),
+        (c(pre[:5], "none", ans="b"), set()),
+        ({"k": "rewind", "len": 3, "saw": [1, 3], "sent": [1, 2, 3]}, {"bytes", "answer"}),
+        ({"k": "rewind", "len": 3, "saw": [1, 2, 3], "sent": [1, 2, 3]}, set()),
+        ({"k": "cancel"}, set()),
+    ]
+    _, fails, _, _ = monitor(pid, [r for r, _ in canaries], tag="selftest")
+    for i, (_, exp) in enumerate(canaries):
+        if fails.get(i, set()) != exp:
+            raise vlib.ToolError(f"SniffObs self-test: record {i} expected false clauses {sorted(exp)}, TLC reported {sorted(fails.get(i, set()))}")
+    return len(canaries)
+
+
 # ------------------------------------------------------------------------------------------------
 # violation keys: the failing input class, summarised
 def rng(vals):
@@ -212,7 +256,7 @@ def summarise(recs, fails):
             if grp:
                 fams = {}
                 for r in grp:
-                    f = fams.setdefault((r["sid"], r["entry"]), [0, 0, r["famn"], r["famsplit"], 99, 0])
+                    f = fams.setdefault(r["fam"], [0, 0, r["famn"], r["famsplit"], 99, 0])
                     f[0] += r["n"]
                     f[1] += r["nsplit"]
                     f[4] = min(f[4], r["fmin"])
@@ -258,6 +302,19 @@ def run(pid, tier, seed, t0):
     threads = 8
     sample = 5000 if tier == "quick" else 20000
 
+    # the replay domain is printed by TLC; in the thorough tier that takes minutes (942 649 cut sets), so it runs
+    # beside the model checking
+    import threading
+    genres = {}
+
+    def gen_thread():
+        try:
+            genres["v"] = gen_domain(pid, tier)
+        except Exception as e:  # re-raised below
+            genres["e"] = e
+    gt = threading.Thread(target=gen_thread)
+    gt.start()
+
     # 1. model
     mc, cov = model_check(pid, tier)
     if cov is None:
@@ -266,14 +323,22 @@ def run(pid, tier, seed, t0):
     never = sorted(a for a, (d, t) in cov.items() if t == 0)
     extra_model = {}
     if tier == "thorough":
+        allc = vlib.tlc("MC_Sniff", "Sniff_all.cfg", pid, workers=8, timeout=1200)
+        if allc.violated or not allc.finished:
+            vlib.log(allc.out[-4000:])
+            raise vlib.ToolError(f"Sniff_all.cfg: {allc.violated}; fix the model")
         sim = vlib.tlc("MC_Sniff", "Sniff_thorough.cfg", pid, workers=8, simulate=100000, depth=80, seed=seed, timeout=900)
         if sim.violated:
             vlib.log(sim.out[-4000:])
             raise vlib.ToolError(f"simulation of Sniff.tla violates {sim.violated}; fix the model")
+        ms = re.search(r"(\d+) states checked, (\d+) traces generated", sim.out)
         fn = vlib.tlc("MC_Sniff", "Sniff_fn.cfg", pid, workers=8, timeout=900)
         if fn.violated or not fn.finished:
             raise vlib.ToolError("Sniff_fn.cfg: SniffFn disagrees with the automaton; fix the model")
-        extra_model = {"simulated_behaviours": 100000, "fn_link_states": fn.distinct}
+        extra_model = {"all_chunkings_model": {"config": "Sniff_all.cfg (MaxCuts = 31: every cut set of the window)",
+                                               "states": allc.distinct, "transitions": allc.generated},
+                       "simulation": {"states_checked": int(ms.group(1)) if ms else 0, "traces": int(ms.group(2)) if ms else 0},
+                       "fn_link": {"config": "Sniff_fn.cfg", "states": fn.distinct}}
 
     # as-built variant: TLC produces the failing chunking (standing demonstration, D7)
     ab = vlib.tlc("MC_Sniff", "Sniff_asbuilt.cfg", pid, workers=4, timeout=600)
@@ -283,18 +348,21 @@ def run(pid, tier, seed, t0):
     explicit = [cex_to_vector(cex, 9000)] + explicit_vectors()
 
     # 2. replay domain from TLC, 3. real crate
-    cuts, fams, rew = gen_domain(pid, tier)
+    gt.join()
+    if "e" in genres:
+        raise genres["e"]
+    cuts, fams, rew = genres["v"]
     lines, nclasses = harness_lines(cuts, fams, rew, explicit)
     obs_path = os.path.join(vlib.outdir(pid), "obs.ndjson")
     th = time.time()
-    vlib.run_harness(BIN, ["--out", obs_path, "--threads", threads, "--sample", sample, "--seed", seed],
-                     stdin="\n".join(lines) + "\n", timeout=2400)
+    run_bin(["--out", obs_path, "--threads", threads, "--sample", sample, "--seed", seed], "\n".join(lines) + "\n", 2400)
     harness_wall = time.time() - th
     recs = vlib.read_ndjson(obs_path)
     summary = [r for r in recs if r["k"] == "summary"][0]
     recs = [r for r in recs if r["k"] != "summary"]
 
     # 4. TLC decides
+    ncanary = monitor_selftest(pid)
     res, fails, drift, mon_wall = monitor(pid, recs)
     viols = summarise(recs, fails)
     for key, desc, rep in viols:
@@ -308,7 +376,12 @@ def run(pid, tier, seed, t0):
                    "pendmask": recs[i].get("pendmask"), "caps": recs[i].get("caps"), "proto": recs[i].get("proto")}
                   for i in drift[:5]]
     nraw = sum(1 for r in recs if r["k"] == "conn" and r.get("g") == 0)
+    drift_asbuilt = None
     if drift:
+        # which model does the code conform to? the same records against the as-built variant of the model
+        _, _, d2, _ = monitor(pid, recs, cfg="SniffObs_asbuilt.cfg", tag="obs-asbuilt")
+        drift_asbuilt = len(d2)
+        vlib.log(f"DRIFT property={pid}: against the AS-BUILT variant of the model (D7 comparison): {drift_asbuilt} records differ")
         vlib.log(f"DRIFT property={pid}: {len(drift)} of {nraw} single-vector records differ from the intended model "
                  f"without (necessarily) falsifying C08, e.g. {drift_recs[:2]}")
 
@@ -337,12 +410,12 @@ def run(pid, tier, seed, t0):
                             f"window (K per family: see spec/MC_Sniff.tla Families, tier {tier}) + the all-ones chunking; "
                             "Pending placements 0..6 on the low-K families"),
         "conn_vectors": summary["vectors"], "rewind_vectors": summary["rewind_vectors"], "families": summary["families"],
-        "tlc_records": len(recs), "group_records": len(groups), "single_vector_records": nraw,
+        "tlc_records": len(recs), "monitor_selftest_records": ncanary, "group_records": len(groups), "single_vector_records": nraw,
         "tlc_coverage": {a: {"distinct": d, "taken": t} for a, (d, t) in sorted(cov.items())},
         "actions_never_taken": never,
         "asbuilt_counterexample": {"m": cex["m"], "len": cex["len"], "eof": cex["eof"], "io_script": cex["hist"],
                                    "model_decision": cex["version"], "real_crate_reproduces": asbuilt_reproduced},
-        "drift": len(drift), "drift_samples": drift_recs,
+        "drift": len(drift), "drift_samples": drift_recs, "drift_vs_asbuilt_model": drift_asbuilt,
         "false_formulas": {k: sum(1 for c in fails.values() if k in c) for k in ("decision", "bytes", "answer")},
         "violation_keys": [k for k, _, _ in viols],
         "harness_wall_s": round(harness_wall, 1), "monitor_wall_s": round(mon_wall, 1), "model_wall_s": round(mc.wall, 1),
@@ -370,7 +443,7 @@ def replay(pid, path):
     if any(v["t"] == "rewind" for v in vecs):
         raise vlib.ToolError("replay objects carry explicit vectors only")
     lines += [json.dumps(v) for v in vecs]
-    vlib.run_harness(BIN, ["--out", obs_path, "--threads", 1], stdin="\n".join(lines) + "\n", timeout=600)
+    run_bin(["--out", obs_path, "--threads", 1], "\n".join(lines) + "\n", 600)
     recs = [r for r in vlib.read_ndjson(obs_path) if r["k"] != "summary"]
     res, fails, drift, _ = monitor(pid, recs, tag="replay")
     for i, cl in sorted(fails.items()):
